@@ -88,6 +88,9 @@ Configs ==
   \cup
   {[depth |-> 2, width |-> 1, granularity |-> 0, transparent |-> t, read_on_resp |-> r,
     read_ports |-> 2, write_ports |-> 1] : t \in BOOLEAN, r \in BOOLEAN}
+\* quick tier: without the largest graphs (they are part of the thorough tier)
+ConfigsQuick == {c \in Configs : /\ ~(c.granularity = 1 /\ c.write_ports = 2 /\ ~c.read_on_resp)
+                                  /\ (c.read_ports = 2 => c.read_on_resp)}
 \* configurations whose every transition is replayed into the real MemoryBank (quick / thorough);
 \* the others have large graphs (request-time values sit in the queue entries)
 ConfigsEdge == {c \in Configs : c.read_ports = 1 /\ c.write_ports = 1 /\ (c.read_on_resp \/ c.granularity = 0)}
